@@ -700,14 +700,21 @@ class TimeoutHandler(PoolThread):
         if not process:
             return
 
-        # Run timeout callback
-        job.handle_timeout(soft=True)
+        # The result handler stores results under the job's mutex: hold it
+        # so that no signal is sent on behalf of a job whose result has
+        # already been processed (its worker may be running another job).
+        with job._mutex:
+            if job.ready():
+                return
 
-        try:
-            _kill(job._worker_pid, SIG_SOFT_TIMEOUT)
-        except OSError as exc:
-            if get_errno(exc) != errno.ESRCH:
-                raise
+            # Run timeout callback
+            job.handle_timeout(soft=True)
+
+            try:
+                _kill(job._worker_pid, SIG_SOFT_TIMEOUT)
+            except OSError as exc:
+                if get_errno(exc) != errno.ESRCH:
+                    raise
 
     def on_hard_timeout(self, job):
         if job.ready():
